@@ -753,7 +753,16 @@ def orientation_tables(repo, col):
                  "AXIS_INVERSION_FOR_RAS"):
         if m.const(name) is None:
             raise AnalysisError("anchor vanished: %s" % name)
-    codes = _literal(m.const("POSSIBLE_AXIS_ORIENTATIONS"))
+    try:
+        codes = _literal(m.const("POSSIBLE_AXIS_ORIENTATIONS"))
+        _literal(m.const("AXIS_PERMUTATION_FOR_RAS"))
+        _literal(m.const("AXIS_INVERSION_FOR_RAS"))
+    except (ValueError, TypeError, SyntaxError):
+        col.add(rule, "scripts.slices_to_precomputed:tables",
+                "orientation tables", True, "the orientation tables are "
+                "computed, not written as literals: their contents are not "
+                "evaluated", undecided=True)
+        return
     want = {"".join(p) for t in itertools.product("LR", "AP", "IS")
             for p in itertools.permutations(t)}
     col.add(rule, "scripts.slices_to_precomputed:POSSIBLE_AXIS_ORIENTATIONS",
@@ -1286,18 +1295,17 @@ def cast_before_write(repo, col, sites):
                  if isinstance(c.func, ast.Attribute)
                  and c.func.attr == "write_chunk"]
         if not calls:
-            # moved into a nested helper?
-            for q, f2 in fn.module.functions.items():
-                if q.startswith(fn.qualname + "."):
-                    calls += [(c, f2) for c in calls_in(f2.node)
-                              if isinstance(c.func, ast.Attribute)
-                              and c.func.attr == "write_chunk"]
+            # moved into a nested / module-level helper (possibly bound with
+            # functools.partial)?
+            for f2 in helper_closure(fn, depth=3):
+                if f2 is fn:
+                    continue
+                calls += [(c, f2) for c in calls_in(f2.node)
+                          if isinstance(c.func, ast.Attribute)
+                          and c.func.attr == "write_chunk"]
         if not calls:
-            if "write_chunk" not in ftext(fn):
-                raise AnalysisError("anchor vanished: write_chunk in %s"
-                                    % fn.key)
             col.add(rule, fn, "write_chunk", True, "write_chunk is not called "
-                    "directly", undecided=True)
+                    "in %s or its local helpers" % fn.key, undecided=True)
             continue
         for c, owner_fn in calls:
             a = c.args[0] if c.args else None
@@ -1381,6 +1389,40 @@ def empty_minishard_guard(repo, col):
                                     if gn is not None and sn is not None and \
                                             gn.id in cfg.dominators()[sn.id]:
                                         ok = True
+        if not ok:
+            # the loop runs over a local generator that yields only the
+            # non-empty slots
+            from .core import resolve_local_call
+            from .rules_more3 import _tests_enclosing
+            from .dataflow import single_defs as _sd2, expand as _ex2
+            for lp in stmts_of(fn.node):
+                if not (isinstance(lp, ast.For) and isinstance(lp.iter, ast.Call)
+                        and any(x is s for x in ast.walk(lp))):
+                    continue
+                h = resolve_local_call(fn, lp.iter)
+                if h is None:
+                    continue
+                ys = [x for x in stmts_of(h.node) if isinstance(x, ast.Expr)
+                      and isinstance(x.value, (ast.Yield, ast.YieldFrom))]
+                if not ys:
+                    continue
+                htab = _sd2(h.node)
+                all_guarded = True
+                for y in ys:
+                    ctx = _tests_enclosing(h.node, y) or []
+                    good = False
+                    for t_, tr_ in ctx:
+                        for a in holds(t_, tr_):
+                            le = norm(_ex2(a.left, htab, depth=3))
+                            if (" - " in le or "len(" in le) and (
+                                    (a.op in ("!=", ">") and
+                                     const_int(a.right) == 0) or
+                                    a.op == "truthy" or
+                                    (a.op == ">=" and const_int(a.right) == 1)):
+                                good = True
+                    all_guarded = all_guarded and good
+                if all_guarded:
+                    ok = True
         col.add(rule, fn, norm(s), ok, "empty (unused) minishards are skipped "
                 "before their first id is read" if ok else
                 "element 0 of a minishard index is read without checking that "
